@@ -51,4 +51,12 @@ theorem callShared_stale_witness :
     (callShared I s0 [("x", 5), ("y", 2)]).2 = .ok 3 := by
   refine ⟨rfl, rfl, rfl, rfl, rfl⟩
 
+/-- **Source-form obligation on `as_code`'s rename guard** (regenerated from funsor/ops/program.py): the loop
+    that lengthens the temporary prefix tests the prefix against EVERY input name (`name.startswith(v)` over all
+    of `self.inputs`) — the hypothesis `choosePrefix_spec` / `tmpName_ne_input` rest on. -/
+theorem prefix_guard_tests_every_input :
+    FV.Gen.C18.prefixGuard.found = true ∧ FV.Gen.C18.prefixGuard.rangesOverAllInputs = true ∧
+    FV.Gen.C18.prefixGuard.testsNameStartswithPrefix = true := by
+  decide
+
 end FV.Props.C18
